@@ -137,6 +137,7 @@ class ModuleSpec:
         self.raw = []       # list of (text lines, src)
         self.items = []     # ItemSpec
         self.fns = []       # FnSpec (order of appearance)
+        self.sitedefault = None
 
 
 def _indent(line):
@@ -232,6 +233,11 @@ def parse_vspec(path, modules):
                     err('raw without end', i)
                 cur_mod.raw.append((buf, (path, i + 2), rest.strip()))
                 i = j + 1
+            elif key == 'sitedefault':
+                if cur_mod is None:
+                    err('sitedefault outside module', i)
+                cur_mod.sitedefault = rest.strip()
+                i += 1
             elif key == 'rawinclude':
                 if cur_mod is None:
                     err('rawinclude outside module', i)
@@ -381,7 +387,7 @@ def parse_vspec(path, modules):
                     j = j2
                 i = j
             elif key == 'proof':
-                m = re.match(r'(?:\[([^\]]*)\]\s*)?(\w+)\s+(before|after_unit|after|start|end|ret|scrut)\s*(?:/(.*)/)?\s*(?:#(\d+))?\s*(raw)?$', rest)
+                m = re.match(r'(?:\[([^\]]*)\]\s*)?(\w+)\s+(before|after_unit|after|start|end|ret|scrut|loopstart)\s*(?:/(.*)/)?\s*(?:#(\d+))?\s*(raw)?$', rest)
                 if not m:
                     err('bad proof header', i)
                 pb = ProofBlock(m.group(2), m.group(3), m.group(4) or '', int(m.group(5) or 0), (path, i + 1))
